@@ -1,13 +1,50 @@
 ---------------------------- MODULE Gen_Context ----------------------------
 EXTENDS Context, Json
-CONSTANTS MaxLen, KindSet
+CONSTANTS MaxLen, KindSet, Shape
 NoDev == {}
 DevAsBuilt == {"ExtensionTagsShared", "StringMetatableShared", "RetainedLibraryTablesShared"}
 KnownC09 == {"StringMetatableShared", "RetainedLibraryTablesShared"}
+\* classes of seeded changes (round 8): what one call was given stays in force for later calls
+DevTimeLimitKept == {"TimeLimitKept"}
+DevCallOptionsKept == {"CallOptionsKept"}
 AllKinds == Kinds
+BaseKinds == Kinds \ OptKinds       \* the kinds of the rounds before round 8
+\* Sound reduction for model checking over ALL kinds: what a history can still do depends on `dirty` only, and
+\* NonInterference on whether some step interfered: states that agree on the view have the same futures and the
+\* same verdict (a state that violates the invariant differs in the third component from every state that does not)
+MCView == <<dirty, Len(hist), \A i \in 1..Len(clean) : clean[i] = {}>>
 QuickKinds == Kinds \ {"luaTimeout"}
-Next == Len(hist) < MaxLen /\ \E k \in KindSet : Process(k)
+\* Shape of the enumerated histories.  "all": every history over KindSet up to MaxLen (model checking).
+\* "gen" (the histories the harness runs on the real code, each in its own process):
+\*   - a kind that takes seconds (SlowKinds) is only placed where it tells something: slowModule after a call that
+\*     was given a time limit (optTimeLimit, luaTimeout) somewhere earlier in the history; luaTimeout as before (anywhere);
+\*   - histories of length <= 2 over all kinds; length 3: all over the kinds without the option kinds (as before
+\*     round 8), and <writer of an option, any other kind, reader> (the option has to survive a call in between)
+TimeLimitWriters == {"optTimeLimit", "luaTimeout"}
+OptReaders == OptKinds
+SlowOK(h, k) == k = "slowModule" => \E i \in 1..Len(h) : h[i] \in TimeLimitWriters
+\* "genquick": as "gen", but of the pairs with an option kind only <writer of an option, any kind> and <any kind, probe
+\* text with the defaults> (a writer after a kind that sets no option tells nothing the probe does not tell)
+PairOK(h) == \/ Shape # "genquick"
+             \/ h[1] \notin OptKinds /\ h[2] \notin OptKinds
+             \/ h[1] \in OptWriters \cup TimeLimitWriters
+             \/ h[2] \in {"optProbe", "optParseProbe"}
+ShapeOK(h) == \/ Len(h) <= 1
+              \/ Len(h) = 2 /\ PairOK(h)
+              \/ \A i \in 1..Len(h) : h[i] \notin OptKinds
+              \/ Len(h) = 3 /\ h[1] \in OptWriters \cup TimeLimitWriters /\ h[2] \notin OptKinds /\ h[3] \in OptReaders
+Allowed(h, k) == Shape = "all" \/ (SlowOK(h, k) /\ ShapeOK(Append(h, k)))
+Next == Len(hist) < MaxLen /\ \E k \in KindSet : Allowed(hist, k) /\ Process(k)
 Spec == CInit /\ [][Next]_cvars
-Emit == PrintT(<<"CASE", ToJson([hist |-> hist, interferes |-> [i \in 1..Len(clean) |-> clean[i]]])>>)
+\* what the model in which the options of a call stay in force (classes of seeded changes) says interferes: used by
+\* the harness only to NAME an observed difference (which option of which earlier call)
+OK == INSTANCE Context WITH Dev <- Dev \cup DevTimeLimitKept \cup DevCallOptionsKept
+RECURSIVE ReplayOK(_, _, _, _)
+ReplayOK(h, i, d, acc) ==
+  IF i > Len(h) THEN acc
+  ELSE LET pre == d \ OK!Resets(h[i])
+       IN ReplayOK(h, i + 1, pre \cup OK!Writes(h[i]), Append(acc, (OK!Reads(h[i]) \cap pre \cap OptCells)))
+Emit == PrintT(<<"CASE", ToJson([hist |-> hist, interferes |-> [i \in 1..Len(clean) |-> clean[i]],
+                                 optkept |-> ReplayOK(hist, 1, {}, <<>>)])>>)
 GenInv == Emit
 =============================================================================
